@@ -70,7 +70,7 @@ Definition nat_spec_run (conf : zs) (ops : list zs) : list zs :=
   match conf with
   | m :: mb :: fb :: life :: k :: rest =>
       let kn := Z.to_nat k in
-      s_run (new_nat (z2b m) mb fb life (firstn kn rest) (firstn kn (skipn kn rest))) (map dec_nop ops)
+      s_run (new_nat (Z.odd m) mb fb life (firstn kn rest) (firstn kn (skipn kn rest))) (map dec_nop ops)
   | _ => []
   end.
 
